@@ -428,8 +428,72 @@ def sql_retry():
     return out
 
 
+def reset_contract():
+    """Cache.reset for ordinary (non-pragma) settings: with a value and update=True the Settings row is
+    ALWAYS written -- whatever this handle believes the current value to be (its attribute is only a
+    snapshot; another handle may have changed the row) -- then the attribute (and for disk_* the Disk
+    attribute) is set; without a value the row is read and the attribute set from it; update=False writes
+    nothing.  (The pragma branch, sqlite_*, stays an assumed contract.)"""
+    ctx = cctx()
+    out = []
+    core = ctx.program.modules['diskcache.core'].globals
+    ENOVAL = core['ENOVAL']
+    for key in ('cull_limit', 'disk_pickle_protocol'):
+        for mode in ('value', 'value-noupdate', 'reload'):
+            def run(st, key=key, mode=mode):
+                it = ctx.interp(st)
+
+                def sql(it2, a, k):
+                    it2.st.effect('SQLTEXT', stmt=' '.join(a[0].split()), params=a[1] if len(a) > 1 else ())
+                    return Obj('Cursor', {'rows': [(Opaque('other', it2.st.fresh('stored', OTHER)),)]})
+                ctx.env.obj_methods['Cursor'] = {'fetchall': lambda it2, o, a, k: o.fields['rows']}
+                fn = EnvFunc('sql', sql)
+                ctx.hooks['diskcache.core.Cache._sql'] = lambda it2, f, a, k: fn
+                ctx.hooks['diskcache.core.Cache._sql_retry'] = lambda it2, f, a, k: fn
+                try:
+                    value = Opaque('other', st.fresh('value', OTHER))
+                    # the handle's snapshot may or may not equal the new value
+                    snap = value if st.decide(2) == 1 else Opaque('other', st.fresh('snapshot', OTHER))
+                    disk = ctx.new_obj('diskcache.core.Disk', {'pickle_protocol': snap})
+                    cache = ctx.new_obj('diskcache.core.Cache', {key: snap, '_disk': disk})
+                    st.ghost.update(value=value, cache=cache, disk=disk)
+                    if mode == 'reload':
+                        return it.call(it.getattr(cache, 'reset'), [key], {})
+                    return it.call(it.getattr(cache, 'reset'), [key, value], {'update': mode == 'value'})
+                finally:
+                    ctx.hooks.pop('diskcache.core.Cache._sql', None)
+                    ctx.hooks.pop('diskcache.core.Cache._sql_retry', None)
+            for n, p in enumerate(explore(run)):
+                st = p.state
+                base = 'C18.reset[%s,%s]#%d' % (key, mode, n)
+                stmts = [e[1] for e in st.trace if e[0] == 'SQLTEXT']
+                ups = [x for x in stmts if x['stmt'].upper().startswith('UPDATE SETTINGS')]
+                cache, value = st.ghost['cache'], st.ghost['value']
+                if p.kind != 'return':
+                    out.append(R(base + '.no_exception', False, 'Cache.reset', 'raises %r' % (p.value,), path=p.decisions))
+                    continue
+                if mode == 'value':
+                    ok = len(ups) == 1 and len(ups[0]['params']) == 2 and ups[0]['params'][0] is value and ups[0]['params'][1] == key
+                    out.append(R(base + '.always_writes_the_row', ok, 'Cache.reset',
+                                 'statements %r: the stored setting is not updated although a value was given (the handle\'s own '
+                                 'attribute is only a snapshot of it)' % [(x['stmt'], x['params']) for x in stmts], path=p.decisions))
+                elif mode == 'value-noupdate':
+                    out.append(R(base + '.update_false_writes_nothing', not ups, 'Cache.reset', 'statements %r' % [x['stmt'] for x in stmts], path=p.decisions))
+                if mode != 'reload':
+                    ok = cache.fields.get(key) is value and p.value is value and \
+                        (not key.startswith('disk_') or st.ghost['disk'].fields.get(key[5:]) is value)
+                    out.append(R(base + '.applies_the_value', ok, 'Cache.reset', 'attribute %r, Disk attribute %r, returns %r' % (
+                        cache.fields.get(key), st.ghost['disk'].fields.get(key[5:]), p.value), path=p.decisions))
+                else:
+                    sel = [x for x in stmts if x['stmt'].upper().startswith('SELECT VALUE FROM SETTINGS')]
+                    ok = len(sel) == 1 and not ups and cache.fields.get(key) is p.value and isinstance(p.value, Opaque)
+                    out.append(R(base + '.reload_reads_the_row', ok, 'Cache.reset', 'statements %r, attribute %r' % (
+                        [x['stmt'] for x in stmts], cache.fields.get(key)), path=p.decisions))
+    return out
+
+
 def tasks(tier):
-    ts = [('contracts.c18', 'getstate_setstate', ()), ('contracts.c18', 'fanout_init', ()), ('contracts.c18', 'sql_retry', ()),
+    ts = [('contracts.c18', 'getstate_setstate', ()), ('contracts.c18', 'reset_contract', ()), ('contracts.c18', 'fanout_init', ()), ('contracts.c18', 'sql_retry', ()),
           ('contracts.c18', 'con_reconnects', ()), ('contracts.c18', 'close_idempotent', ()),
           ('contracts.c18', 'format_pins', ()), ('contracts.c18', 'settings_merge', ())]
     from contracts.disk_common import KEY_CLASSES
